@@ -1352,6 +1352,9 @@ func (m *RadioTap) DecodeFromBytes(data []byte, df gopacket.DecodeFeedback) erro
 		df.SetTruncated()
 		return errors.New("RadioTap too small")
 	}
+	// the namespace values are appended below: do not keep those of an
+	// earlier decode (the flags of the first namespace select the payload)
+	*m = RadioTap{}
 	m.Version = uint8(data[0])
 	m.Length = binary.LittleEndian.Uint16(data[2:4])
 
